@@ -8,7 +8,7 @@ META = {
     "rule": ("streams of 1-4 valid frames (Heartbeat, TestRequest, NewOrderSingle with nested groups, ExecutionReport with 300-byte Text; built "
              "by the independent framer, numbered from the receiver's expected MsgSeqNum) fed to a real logged-on socket_read_task through a "
              "chunker: ALL 1-cut and 2-cut partitions of short streams, all-1-byte reads, random multi-cut partitions of streams up to 4 kB, "
-             "reads larger than 4096, optional marker-free garbage (with / without SOH and '=') before the first frame and between frames; "
+             "reads larger than 4096, optional marker-free garbage (with / without SOH and '=', incl. stray CheckSum fields, digits 8 and beginnings of the frame-start text) before the first frame and between frames, all 1-cut and near 2-cut partitions of junk-prefixed streams, frames whose Text quotes a BeginString; "
              "oracle = the sent frame list: on_message history, inbound journal rows byte-for-byte, still ACTIVE, no ResendRequest / Logout "
              "on the tap; distinct = (stream id, cut tuple); non-trivial = at least one cut strictly inside a frame"),
     "assumptions": ["garbage that contains the frame-start marker and frames with bad checksums are C10's subject"],
@@ -38,6 +38,9 @@ def make_frames(rnd, peer, kinds):
             fr.append(("a", peer.frame("8", None, [(11, "b%d" % rnd.randrange(1000)), (58, "T" * 300), (17, "e1")])))
         elif k == "small":
             fr.append(("a", peer.frame("D", None, [(11, "s")])))
+        elif k == "mk":
+            # a valid frame whose Text quotes a BeginString: the frame-start text inside a value is not a frame start
+            fr.append(("a", peer.frame("j", None, [(45, 7), (58, "Unsupported BeginString 8=FIX.4.2 (expected 8=FIX.4.4)"), (380, 0)])))
     return fr
 
 
@@ -47,9 +50,12 @@ def garbage(rnd, style):
         al = b"abcxyz \r\n\x00\xff"
     else:
         al = b"ab\x01=0915 \n"
+    if style == "eights":
+        # junk that looks like pieces of FIX: stray CheckSum fields, digits 8, beginnings of the frame-start text (never all of it)
+        al = b"8=FIX10\x01 2"
     while True:
         g = bytes(rnd.choice(al) for _ in range(n))
-        if b"8=FIX." not in g and not g.endswith((b"8", b"8=", b"8=F", b"8=FI", b"8=FIX")):
+        if b"8=FIX." not in g:
             return g
 
 
@@ -169,6 +175,7 @@ def run_shard(spec, acc):
         srnd = random.Random(f"{spec['seed']}:C03:streams")
         combos = [["hb", "small"], ["small", "tr"], ["nos"], ["small", "hb", "small"], ["tr", "small"], ["hb", "hb", "small"],
                   ["grp"], ["nos", "hb"], ["small", "small", "small"], ["hb", "nos"], ["grp", "small"], ["tr", "nos"]]
+        combos[2:2] = [["mk", "small"]]       # a value that contains the frame-start text, under every 1-/2-cut partition
         idx = 0
         for si in range(spec["nstreams"]):
             peer = E.Peer("PEER", "ME")
@@ -191,6 +198,32 @@ def run_shard(spec, acc):
                     continue
                 acc.case_disjoint(nontrivial=True)
                 await run_partition(acc, clock, stream, frames, cuts, [], cid, f"ex{si}")
+        # ---- exhaustive 1-cut / 2-cut partitions of streams with junk right in front of / between frames
+        JUNK = [b"10=128\x01", b"x8", b"8=F", b"8=FIX", b"\x018", b"=8=\x01"]
+        for ji, junk in enumerate(JUNK):
+            peer = E.Peer("PEER", "ME")
+            peer.next_out = 2
+            frames = make_frames(srnd, peer, ["small", "hb"] if ji % 2 else ["hb", "small"])
+            parts, garb, pos = [], [], 0
+            for i, (_, fb) in enumerate(frames):
+                garb.append((pos, pos + len(junk)))
+                parts.append(junk)
+                pos += len(junk)
+                parts.append(fb)
+                pos += len(fb)
+            stream = b"".join(parts)
+            n = len(stream)
+            cutsets = [(c,) for c in range(1, n)] + [(a, b) for a in range(1, n) for b in range(a + 1, min(n, a + 40))] + [tuple(range(1, n))]
+            for cuts in cutsets:
+                idx += 1
+                if idx % nsh != shard:
+                    continue
+                cid = f"exj:{ji}:{','.join(map(str, cuts)) if len(cuts) < 5 else 'bytes'}"
+                if not acc.want(cid):
+                    continue
+                acc.case_disjoint(nontrivial=True)
+                acc.add("exhaustive_partitions_with_junk")
+                await run_partition(acc, clock, stream, frames, cuts, garb, cid, f"exj{ji}")
         acc.add("exhaustive_partitions", 0)
         # ---- random multi-cut partitions, bigger streams, garbage
         for c in range(spec["nrand"]):
@@ -200,7 +233,7 @@ def run_shard(spec, acc):
             rnd = random.Random(f"{spec['seed']}:C03:{shard}:{c}")
             peer = E.Peer("PEER", "ME")
             peer.next_out = 2
-            kinds = [rnd.choice(["hb", "tr", "nos", "grp", "big", "small"]) for _ in range(rnd.randrange(1, 5))]
+            kinds = [rnd.choice(["hb", "tr", "nos", "grp", "big", "small", "mk"]) for _ in range(rnd.randrange(1, 5))]
             if rnd.random() < 0.1:
                 kinds += ["big"] * rnd.randrange(8, 12)   # > 4096 bytes: read(4096) splits
             frames = make_frames(rnd, peer, kinds)
@@ -210,7 +243,7 @@ def run_shard(spec, acc):
             gmode = rnd.choice(["none", "none", "before", "between", "both"])
             for i, (_, fb) in enumerate(frames):
                 if (i == 0 and gmode in ("before", "both")) or (i > 0 and gmode in ("between", "both") and rnd.random() < 0.6):
-                    g = garbage(rnd, rnd.choice(["plain", "fixish"]))
+                    g = garbage(rnd, rnd.choice(["plain", "fixish", "eights", "eights"]))
                     garb.append((pos, pos + len(g)))
                     parts.append(g)
                     pos += len(g)
